@@ -60,6 +60,10 @@ impl<F: Fn(u64) -> usize> Iterator for FindChangePoints<F> {
             if new_val != self.prev_value {
                 break;
             }
+            // No change point up to current + 2^63: doubling the step would overflow
+            if step > u64::MAX / 2 {
+                return None;
+            }
             step *= 2;
         }
 
